@@ -9,18 +9,44 @@ import (
 	"path/filepath"
 	"runtime/pprof"
 	"strings"
+	"sync/atomic"
 	"time"
+
+	"github.com/centrifugal/centrifuge"
 
 	"github.com/bitcoin-sv/block-headers-service/config"
 	"github.com/bitcoin-sv/block-headers-service/internal/chaincfg"
 	"github.com/bitcoin-sv/block-headers-service/internal/chaincfg/chainhash"
 	"github.com/bitcoin-sv/block-headers-service/internal/wire"
+	"github.com/bitcoin-sv/block-headers-service/notification"
+	"github.com/bitcoin-sv/block-headers-service/service"
 	peerpkg "github.com/bitcoin-sv/block-headers-service/transports/p2p/peer"
 	"github.com/bitcoin-sv/block-headers-service/verifharness/gen"
 	"github.com/bitcoin-sv/block-headers-service/verifharness/refmodel"
 	"github.com/bitcoin-sv/block-headers-service/verifharness/rig"
 	"github.com/bitcoin-sv/block-headers-service/verifharness/snap"
 )
+
+// slowPublisher stands in for the centrifuge node: it reads every byte of the payload, before and after a short pause.
+type slowPublisher struct {
+	x   *runner
+	sum atomic.Uint64
+	n   atomic.Int64
+}
+
+func (p *slowPublisher) Publish(_ string, data []byte, _ ...centrifuge.PublishOption) (centrifuge.PublishResult, error) {
+	var a uint64
+	for _, b := range data {
+		a += uint64(b)
+	}
+	time.Sleep(150 * time.Microsecond)
+	for _, b := range data {
+		a += uint64(b)
+	}
+	p.sum.Add(a)
+	p.n.Add(1)
+	return centrifuge.PublishResult{}, nil
+}
 
 // NodeSpec describes one scripted node of a scenario.
 type NodeSpec struct {
@@ -31,10 +57,10 @@ type NodeSpec struct {
 	Cap             int    `json:"cap,omitempty"`      // reply cap (0 = 2000)
 	DisconnectAtMsg int    `json:"disconnect_at_msg,omitempty"`
 	DropAfterHeight int    `json:"drop_after_height,omitempty"` // the node closes the connection right after the getheaders answer that contains this height
-	Silent          bool   `json:"silent,omitempty"`       // never answers getheaders (stall)
-	Inbound         bool   `json:"inbound,omitempty"`      // node dials the service instead of being dialled
-	ForbiddenAt     int    `json:"forbidden_at,omitempty"` // forbidden: height at which its chain carries the forbidden header
-	BadAt           int    `json:"bad_at,omitempty"`       // badcheckpoint: checkpoint height at which its chain differs
+	Silent          bool   `json:"silent,omitempty"`            // never answers getheaders (stall)
+	Inbound         bool   `json:"inbound,omitempty"`           // node dials the service instead of being dialled
+	ForbiddenAt     int    `json:"forbidden_at,omitempty"`      // forbidden: height at which its chain carries the forbidden header
+	BadAt           int    `json:"bad_at,omitempty"`            // badcheckpoint: checkpoint height at which its chain differs
 	MaxAccepts      int    `json:"max_accepts,omitempty"`
 	MaxLive         int    `json:"max_live,omitempty"`         // at most n simultaneous connections (1 = "a single connection")
 	NoDescendants   bool   `json:"no_descendants,omitempty"`   // forbidden: the forbidden header is the last of the node's chain
@@ -450,6 +476,11 @@ func Execute(s *Scenario, dir string) (res *Result) {
 			c.P2P.BanDuration = time.Duration(s.BanDurationMs) * time.Millisecond
 		}
 		c.HTTP.UseAuth = false
+	}, AfterSvc: func(sv *service.Services, c *config.AppConfig) {
+		// as cmd/main.go: every stored header is announced on the websocket channel (here over a publisher that
+		// reads the payload and takes its time, so that deliveries of consecutive headers overlap)
+		lg := *sv.Logger
+		sv.Notifier.AddChannel(notification.NewWebsocketChannel(&lg, &slowPublisher{x: x}, c.Websocket))
 	}})
 	if err != nil {
 		res.Verdict, res.What = "inconclusive", "cannot build stack: "+err.Error()
